@@ -25,7 +25,7 @@ CHECKS = {
             'Whole runs (plain, mux root - each subscribed twice after an aborted first subscription -, 2 interleaved groups, successive roll lifetimes) of scan with 6 accumulators incl. a mutating list append, a tuple seed holding a mutated list and one that returns None, seed as value/factory, reduce/terminator on/off equal the left fold for all N<=4 (thorough 6) integers; one-step obligations from an arbitrary stored accumulator cover keys of any length; derived operators vs their fold. ' + SYMX,
             'trusted: CrossHair/z3; distogram replaced by a stub for dist.update (structure only)', '4/C09'),
     'C10': ('solver-based: symbolic execution (CrossHair+z3) of each sequence operator vs its list definition',
-            'One obligation per operator x mode x length x parameter: N<=5 (thorough 7) items each an arbitrary int or None; first/last/take/distinct/distinct_until_changed/lag/pad_start/pad_end/start_with/batch/sort equal the list definitions of the statement; the stateful ones also under group_by with 2 solver-interleaved keys and on re-subscription after an aborted run; distinct also over <=3 (4) items the solver picks from a palette of different values with equal hash. ' + SYMX,
+            'One obligation per operator x mode x length x parameter: N<=5 (thorough 7) items each an arbitrary int or None; first/last/take/distinct/distinct_until_changed/lag/pad_start/pad_end/start_with/batch/sort equal the list definitions of the statement; the stateful ones also under group_by with 2 solver-interleaved keys and on re-subscription after an aborted run, and inside split (solver-chosen boundaries) / a tumbling roll where every segment re-uses the key index (N<=4, thorough 5); distinct also over <=3 (4) items the solver picks from a palette of different values with equal hash. ' + SYMX,
             'trusted: CrossHair/z3; list definitions in vp/props/C10.py; distinct restricted to ints 0..2 (the real code hashes items) plus the equal-hash palette [-1, -2, 0, 2**61-1, 5]', '4/C10'),
     'C11': ('solver-based: symbolic execution (CrossHair+z3) of Subject-driven pipelines, timed trace vs reference interpreter',
             'Every output is stamped with the source position at which it reaches the final subscriber; for all N<=4 (thorough 5) integers the timed trace equals the reference timed trace (multiset per source position) for every catalogue operator, keyed operators around reducing/streaming inner pipelines, tee_map and seeded compositions to depth 3. ' + SYMX,
